@@ -14,11 +14,13 @@ CONSTANTS
  InlineData = TRUE
  Conc = 3
  Probes = TRUE
- Exts = {FALSE}
+ Exts = {0}
  KeepSlots = FALSE
  TarUnverified = FALSE
  MTs = {TRUE}
  DigestHdrs = {"served"}
+ Sts = {"std"}
+ DropKinds = {"ueof"}
 INIT Init
 NEXT Next
 VIEW View
